@@ -186,9 +186,12 @@ def external_diff_render(cmd, a, b):
         output, errors = p.communicate()
         status = p.returncode
         output = output.decode('utf8')
-        r = re.compile(r"^\\ No newline at end of file\n?", flags=re.M)
-        output, n = r.subn("", output)
-        assert n <= 2, 'unexpected output from external diff renderer'
+        if '--color-words' not in cmd:
+            # (git prints no such marker in word diff mode, where lines of
+            # the texts carry no prefix and can look like the marker)
+            r = re.compile(r"^\\ No newline at end of file\n?", flags=re.M)
+            output, n = r.subn("", output)
+            assert n <= 2, 'unexpected output from external diff renderer'
     finally:
         shutil.rmtree(td)
     return output, status
